@@ -1,17 +1,17 @@
 ---------------------------- MODULE PipelineTrace ----------------------------
 (* C11 trace validation: every distinct outcome event the harness observed on the real        *)
-(* py.Compile (events.ndjson, one event per line: [lex, mode, kind, cls, bases, file, line,   *)
-(* offset]) must be a behaviour of Pipeline: some run of the stage machine started with the   *)
-(* event's lexical class and mode ends in a matching outcome.  One initial state per event,   *)
+(* py.Compile (events.ndjson, one event per line: [mode, kind, cls, bases, file, line,        *)
+(* offset]) must be a behaviour of Pipeline: some run of the stage machine started in the     *)
+(* event's mode ends in a matching outcome.  One initial state per event,   *)
 (* the acceptance test runs in a Next step (so the workers share it); the verdict of every    *)
 (* line is printed for the harness.                                                           *)
 EXTENDS Pipeline, Json
 Events == ndJsonDeserialize("events.ndjson")
 VARIABLES l, v
-TInit == l \in 1..Len(Events) /\ v = "todo"
+TInit == l \in 1..Len(Events) /\ v = "todo" /\ st = Start(Events[l].mode)
 TNext == /\ v = "todo"
          /\ v' = IF Accepts(Events[l]) THEN "accepted" ELSE "rejected"
-         /\ UNCHANGED l
-TSpec == TInit /\ [][TNext]_<<l, v>>
+         /\ UNCHANGED <<l, st>>
+TSpec == TInit /\ [][TNext]_<<l, v, st>>
 Verdict == v # "todo" => PrintT(ToJson([line |-> l, verdict |-> v]))
 =============================================================================
